@@ -38,14 +38,17 @@ void hs_selftest(void) { hashmap_test(); }
 int hs_have_internals(void) { return 1; }
 int hs_capacity(void *m) { return ((HashMap *)m)->capacity; }
 int hs_used(void *m) { return ((HashMap *)m)->used; }
-void hs_dispose(void *m) { free(((HashMap *)m)->buckets); free(m); }
+// Only the HashMap header, which hs_new() allocated, is released. The bucket array belongs to
+// hashmap.c, which never frees and may allocate it any way it likes (an arena, for instance).
+void hs_dispose(void *m) { free(m); }
 
 // bucket index a key lands in, in an empty table of the given capacity
 int hs_home_bucket(char *key, int len, int cap) {
   static HashMap pm;
-  if (pm.capacity != cap) {
-    free(pm.buckets);
-    pm.buckets = calloc(cap, sizeof(HashEntry));
+  static void *mine; // the array this function allocated itself (hashmap.c may have replaced pm.buckets by its own)
+  if (pm.capacity != cap || pm.buckets != mine) {
+    free(mine);
+    mine = pm.buckets = calloc(cap, sizeof(HashEntry));
     pm.capacity = cap;
   }
   pm.used = 0;
@@ -77,7 +80,7 @@ void hs_census(void *m, int *live, int *tomb) {
 int hs_have_internals(void) { return 0; }
 int hs_capacity(void *m) { return 0; }
 int hs_used(void *m) { return 0; }
-void hs_dispose(void *m) {}
+void hs_dispose(void *m) { free(m); }
 int hs_home_bucket(char *key, int len, int cap) { return -1; }
 void hs_census(void *m, int *live, int *tomb) { *live = *tomb = 0; }
 #endif
